@@ -14,15 +14,18 @@ namespace c13 {
 static std::string descStr(const AutDescription& d) { std::string s = "name=" + d.name + " finals={"; for (auto& f : d.finalStates) s += f + " "; s += "} rules={"; for (auto& t : d.transitions) { s += t.second + "("; for (auto& c : t.first) s += c + ","; s += ")->" + t.third + "; "; } return s + "}"; }
 
 // ---- (a) descriptions: parse(serialize(d)) == d, and textual variants of the same description
-static void descRoundTrip(Env& env, const std::string& stage, int maxRules) {
-  static const char* ST[3] = {"q", "q0", "1"}; static const char* SY[3] = {"a", "f", "g1"};
+// name tables: plain names, and names made of every character class a name may contain besides letters and digits ('-' and '>' on their own, '_', '.', a keyword)
+static const char* NAMES_ST[3][3] = {{"q", "q0", "1"}, {"q-0", "x>y", "_"}, {">", "States", "p.1"}};
+static const char* NAMES_SY[3][3] = {{"a", "f", "g1"}, {"cons-2", "a>", "-"}, {"Final", "+", "a-"}};
+static void descRoundTrip(Env& env, const std::string& stage, int maxRules, int names = 0) {
+  const char* const* ST = NAMES_ST[names]; const char* const* SY = NAMES_SY[names];
   struct R { int sym; std::vector<int> ch; int par; }; auto U = std::make_shared<std::vector<R>>();
   for (int s = 0; s < 3; s++) for (int p = 0; p < 3; p++) { U->push_back({s, {}, p}); for (int c1 = 0; c1 < 3; c1++) { U->push_back({s, {c1}, p}); for (int c2 = 0; c2 < 3; c2++) U->push_back({s, {c1, c2}, p}); } }
   auto items = std::make_shared<std::vector<std::vector<int>>>(); { std::vector<int> pick; std::function<void(size_t, int)> rec = [&](size_t from, int left) { items->push_back(pick); if (!left) return; for (size_t i = from; i < U->size(); i++) { pick.push_back((int)i); rec(i + 1, left - 1); pick.pop_back(); } }; rec(0, maxRules); }
   std::stable_sort(items->begin(), items->end(), [](const std::vector<int>& a, const std::vector<int>& b) { return a.size() < b.size(); });
   env.noteNum(stage + ".rule_sets", items->size());
   ParallelOpts o; o.stage = stage; o.size = items->size() * 16; o.block = 1024;
-  o.run = [items, U](uint64_t idx, Ctx& c) {
+  o.run = [items, U, ST, SY](uint64_t idx, Ctx& c) {
     const std::vector<int>& pick = (*items)[idx / 16]; unsigned fin = idx % 16 & 7; bool named = idx % 16 >> 3;
     AutDescription d; if (named) d.name = "A_1"; for (int q = 0; q < 3; q++) if (fin >> q & 1) { d.finalStates.insert(ST[q]); d.states.insert(ST[q]); }
     for (int i : pick) { const R& r = (*U)[i]; std::vector<std::string> ch; for (int x : r.ch) { ch.push_back(ST[x]); d.states.insert(ST[x]); } d.states.insert(ST[r.par]); d.symbols.insert({SY[r.sym], (int)r.ch.size()}); d.transitions.insert(AutDescription::Transition(ch, SY[r.sym], ST[r.par])); }
@@ -58,9 +61,10 @@ template <class Aut> static void dumpLoad(const std::string& enc, const std::str
     if (!(d2 == d1)) c.viol(enc + "/dump(load(dump))", "rules_or_final_states_differ_after_reload", {}, what + "\nfirst dump:\n" + t1 + "second dump:\n" + t2, w);
   } catch (std::exception& e) { c.viol(enc + "/dump-load", "exception", {}, what + " " + e.what() + "\ntext:\n" + txt, w); }
 }
-static void encTree(Env& env, const std::string& stage, int n, const dom::Alphabet& sig, int k) {
+static void encTree(Env& env, const std::string& stage, int n, const dom::Alphabet& sig, int k, bool nastyStateNames = false) {
   auto D = std::make_shared<dom::TADomain>(n, sig, k);
-  dom::forEachTA(env, stage, D, [D](const ref::TA& A, size_t idx, Ctx& c) { c.evals(); if (A.rules.size() >= 1) c.nontrivial(); std::string txt = dom::timbuk(A, D->sig); uint64_t w = A.rules.size(); std::string what = D->str(A);
+  dom::forEachTA(env, stage, D, [D, nastyStateNames](const ref::TA& A, size_t idx, Ctx& c) { c.evals(); if (A.rules.size() >= 1) c.nontrivial(); std::string txt = dom::timbuk(A, D->sig);
+    if (nastyStateNames) { std::string t2; for (size_t i = 0; i < txt.size(); i++) { if (txt[i] == 'q' && i + 1 < txt.size() && isdigit((unsigned char)txt[i + 1]) && (i == 0 || !isalnum((unsigned char)txt[i - 1]))) { t2 += "x>"; t2 += txt[i + 1]; t2 += '-'; i++; } else t2 += txt[i]; } txt = t2; } uint64_t w = A.rules.size(); std::string what = D->str(A);
     if (c.wantSample() && A.rules.size() >= 3) c.sample(what);
     dumpLoad<ExplicitTreeAut>("expl", txt, c, what, w, true); dumpLoad<BDDBottomUpTreeAut>("bdd-bu", txt, c, what, w, true); dumpLoad<BDDTopDownTreeAut>("bdd-td", txt, c, what, w, true); }, 64, 30);
 }
@@ -173,10 +177,15 @@ static Register d1("c13.bytes.len2", "C13", "ALL byte strings of length 2 (65 53
 static Register d2("c13.bytes.len3", "C13", "ALL byte strings of length 3 (16.7 M): parser + explicit loader", [](Env& e) { byteStrings(e, "c13.bytes.len3", 3); });
 static Register d3("c13.byteedit1", "C13", "every single-byte edit (replace by / insert each of 256 values, delete) of 3 valid templates: parser + four loaders", [](Env& e) { byteEdits(e, "c13.byteedit1"); });
 static Register a1("c13.desc.k2", "C13", "all descriptions with <=2 rules over 3 state names x 3 symbols (ranks 0..2) x all final sets x named/anonymous: parse(serialize) and 2 textual variants", [](Env& e) { descRoundTrip(e, "c13.desc.k2", 2); });
+static Register a3("c13.desc.names1.k2", "C13", "all descriptions with <=2 rules, state names {q-0, x>y, _} and symbol names {cons-2, a>, -} (a lone '-' or '>' inside a name is legal): parse(serialize) and 3 textual variants", [](Env& e) { descRoundTrip(e, "c13.desc.names1.k2", 2, 1); });
+static Register a4("c13.desc.names2.k2", "C13", "all descriptions with <=2 rules, state names {>, States, p.1} and symbol names {Final, +, a-}", [](Env& e) { descRoundTrip(e, "c13.desc.names2.k2", 2, 2); });
+static Register a5("c13.desc.names1.k3", "C13", "<=3 rules with the names of names1", [](Env& e) { descRoundTrip(e, "c13.desc.names1.k3", 3, 1); });
+static Register a6("c13.desc.names2.k3", "C13", "<=3 rules with the names of names2", [](Env& e) { descRoundTrip(e, "c13.desc.names2.k3", 3, 2); });
 static Register a2("c13.desc.k3", "C13", "all descriptions with <=3 rules", [](Env& e) { descRoundTrip(e, "c13.desc.k3", 3); });
 static Register b1("c13.enc.tree.n2s2k3", "C13", "every automaton of TA(2,{a:0,b:0,g:2},<=3): dump/load/dump in expl, bdd-bu, bdd-td with state dictionaries", [](Env& e) { encTree(e, "c13.enc.tree.n2s2k3", 2, dom::Sigma2(), 3); });
 static Register b2("c13.enc.tree.n3s3pk3", "C13", "every automaton of TA(3,{a:0,f:1,g:2},<=3): dump/load/dump in the three tree encodings", [](Env& e) { encTree(e, "c13.enc.tree.n3s3pk3", 3, dom::Sigma3p(), 3); });
 static Register b5("c13.enc.tree.ov.n2k3", "C13", "every automaton of TA(2,{a:0,a:2,b:0},<=3) (one symbol name with two arities): dump/load/dump in the three tree encodings", [](Env& e) { encTree(e, "c13.enc.tree.ov.n2k3", 2, dom::SigmaOv(), 3); });
+static Register b6("c13.enc.tree.names.n2k3", "C13", "every automaton of TA(2,{a-:0,b>:0,-:2},<=3) with state names x>0-, x>1- (lone '-' and '>' inside names): dump/load/dump in the three tree encodings", [](Env& e) { encTree(e, "c13.enc.tree.names.n2k3", 2, dom::Alphabet{{0, 0, 2}, {"a-", "b>", "-"}}, 3, true); });
 static Register b3("c13.enc.fa.n2l2k3", "C13", "every NFA of FA(2,{a,b},<=3) (also with a second start symbol on a start state): dump/load/dump in expl_fa", [](Env& e) { encFA(e, "c13.enc.fa.n2l2k3", 2, 2, 3); });
 static Register b4("c13.enc.fa.n3l2k4", "C13", "every NFA of FA(3,{a,b},<=4): dump/load/dump in expl_fa", [](Env& e) { encFA(e, "c13.enc.fa.n3l2k4", 3, 2, 4); });
 static Register c1("c13.text.len3", "C13", "all 21^3 token strings: parser and the four loaders", [](Env& e) { tokenStrings(e, "c13.text.len3", 3); });
